@@ -65,7 +65,7 @@ def all_shallow():
     return out
 
 
-TYPE_KINDS = ["opaque", "struct", "outstruct", "enum", "opaque"]
+TYPE_KINDS = ["opaque", "struct", "outstruct", "enum", "opaque_enum"]       # `#[diplomat::opaque] enum` is parsed by its own constructor
 KINDS = ["type-disable", "method-disable", "impl-disable", "module-disable", "type-rename", "method-rename", "impl-rename", "module-rename", "trait-disable"]
 
 
@@ -97,6 +97,10 @@ def probe_source(probes, with_attrs):
         if tk == "opaque":
             decl = "    #[diplomat::opaque]\n    pub struct %s(pub u8);\n" % ty
             mk = "Box<%s> { Box::new(%s(0)) }" % (ty, ty)
+            slf, slf2 = "&self, ", "&self"
+        elif tk == "opaque_enum":
+            decl = "    #[diplomat::opaque]\n    pub enum %s { A(u8), B }\n" % ty
+            mk = "Box<%s> { Box::new(%s::B) }" % (ty, ty)
             slf, slf2 = "&self, ", "&self"
         elif tk == "enum":
             decl = "    pub enum %s { A, B }\n" % ty
@@ -207,7 +211,7 @@ def main(tier, seed):
             rc, o, e = run(["nm", "--defined-only", os.path.join(d, "lib.a")], timeout=120)
             syms = set(re.findall(r" T (\w+)", o))
             for k, kind, f in batch:
-                for s in ["P%d_mk" % k, "P%d_pa" % k, "P%d_pb" % k] + (["P%d_destroy" % k] if TYPE_KINDS[k % len(TYPE_KINDS)] == "opaque" else []):
+                for s in ["P%d_mk" % k, "P%d_pa" % k, "P%d_pb" % k] + (["P%d_destroy" % k] if TYPE_KINDS[k % len(TYPE_KINDS)] .startswith("opaque") else []):
                     out["nm"] += 1
                     if s not in syms:
                         out["viol"].append(("nm", k, kind, f, "-", "the compiled library no longer exports %s" % s))
@@ -244,7 +248,7 @@ def main(tier, seed):
                     sym = {"mk": has_pa, "pa": has_pa, "pb": has_pa, "destroy": bool(own)}
                 else:
                     sym = {m: has_word(ia, "%s_%s" % (ty, m)) for m in ("mk", "pa", "pb", "destroy")}
-                    if TYPE_KINDS[k % len(TYPE_KINDS)] != "opaque":
+                    if not TYPE_KINDS[k % len(TYPE_KINDS)].startswith("opaque"):
                         # no destructor for value types: "the type is there" = it has per-type files or any of its methods is used
                         sym["destroy"] = bool(type_files(fa, ty)) or sym["pb"] or sym["mk"] or kind.endswith("rename")
 
